@@ -259,7 +259,7 @@ inline History gen_param_case(const PropSpec& ps, Chooser& ch) {
     c.L = boundary ? ch.pick<uint32_t>({1, 0, 2, 65535, 65536, 1u << 20, 0xFFFFFFFFu}) : ch.range(1, 64);
   } else {
     c.codec = CODEC_LDPC;
-    uint32_t lim = 50000;
+    uint32_t lim, limk; ldpc_limits(&limk, &lim);
     if (boundary) {
       std::vector<uint32_t> bc = boundary_counts(lim);
       bc.push_back(3); bc.push_back(10); bc.push_back(100);
@@ -292,7 +292,8 @@ inline History gen_param_case(const PropSpec& ps, Chooser& ch) {
   return h;
 }
 inline bool is_boundary(const Config& c) {
-  uint32_t lim = c.codec == CODEC_LDPC ? 50000 : (c.codec == CODEC_RSM && c.m == 4) ? 15 : 255;
+  uint32_t lk, ln; ldpc_limits(&lk, &ln);
+  uint32_t lim = c.codec == CODEC_LDPC ? ln : (c.codec == CODEC_RSM && c.m == 4) ? 15 : 255;
   uint64_t n = (uint64_t)c.k + c.r;
   auto near = [](uint64_t v, uint64_t l) { return v + 1 >= l && v <= l + 1; };
   if (c.k <= 1 || c.r <= 1 || c.L <= 1 || near(c.k, lim) || near(n, lim)) return true;
